@@ -21,6 +21,7 @@ import (
 	"bytes"
 	"context"
 	"fmt"
+	"os"
 	"reflect"
 	"runtime"
 	"strconv"
@@ -65,7 +66,7 @@ type stored struct {
 	serial    int64
 	finalized bool
 	hash      []byte
-	data      []byte
+	size      sizeClass // phase 2: the payload is bigPayload(serial, size)
 }
 
 func serialMeta(name string, serial int64) []pairingtypes.Metadata {
@@ -74,7 +75,7 @@ func serialMeta(name string, serial int64) []pairingtypes.Metadata {
 
 // set sends a RelayCacheSet through a protobuf round trip (as the gRPC transport would) into the real handler and
 // waits for ristretto to apply it.
-func (h *harness) set(hash []byte, chain string, block, seen int64, fin bool, blockHash []byte, serial int64, data []byte) error {
+func (h *harness) set(hash []byte, chain string, block, seen int64, fin bool, blockHash []byte, serial int64, data []byte, scratch *[]byte) error {
 	msg := &pairingtypes.RelayCacheSet{
 		RequestHash: hash,
 		BlockHash:   blockHash,
@@ -93,15 +94,19 @@ func (h *harness) set(hash []byte, chain string, block, seen int64, fin bool, bl
 		SeenBlock:        seen,
 		AverageBlockTime: int64(10 * time.Second),
 	}
-	bz, err := msg.Marshal()
-	if err != nil {
-		return err
+	size := msg.Size()
+	if cap(*scratch) < size {
+		*scratch = make([]byte, size+size/8)
+	}
+	bz := (*scratch)[:size]
+	if n, err := msg.MarshalToSizedBuffer(bz); err != nil || n != size {
+		return fmt.Errorf("marshal: %v (%d/%d)", err, n, size)
 	}
 	wire := &pairingtypes.RelayCacheSet{}
-	if err := wire.Unmarshal(bz); err != nil {
+	if err := wire.Unmarshal(bz); err != nil { // Unmarshal copies every byte field: the server owns its own data
 		return err
 	}
-	_, err = h.srv.SetRelay(h.ctx, wire)
+	_, err := h.srv.SetRelay(h.ctx, wire)
 	h.cs.VerifWait()
 	return err
 }
@@ -134,10 +139,10 @@ func replySerial(r *pairingtypes.CacheRelayReply) int64 {
 }
 
 // sameAsStored: every reply field except the signature (which the cache clears by design) equals what was stored.
-func sameAsStored(r *pairingtypes.CacheRelayReply, serial int64, data []byte) string {
+func sameAsStored(r *pairingtypes.CacheRelayReply, serial int64, dataEqual func(got []byte) bool) string {
 	s := strconv.FormatInt(serial, 10)
 	switch {
-	case !bytes.Equal(r.Reply.Data, data):
+	case !dataEqual(r.Reply.Data):
 		return "data"
 	case r.Reply.LatestBlock != replyLatestBlock:
 		return "latest_block"
@@ -228,18 +233,34 @@ var dims = [nDims]dim{
 }
 
 type grid struct {
-	radix [nDims]int
-	size  int
+	radix   [nDims]int
+	size    int     // size of the full product
+	members []int32 // the enumerated requests (indices into the full product)
 }
+
+// newGrid: the thorough tier uses the whole cartesian product; the quick tier the sub-grid of all requests that
+// differ from the base request (all digits 0) in at most quickWeight fields (so pairs differ in up to 2*quickWeight).
+const quickWeight = 4
 
 func newGrid(tier string) *grid {
 	g := &grid{size: 1}
 	for i, d := range dims {
 		g.radix[i] = len(d.vals)
-		if tier == "quick" {
-			g.radix[i] = d.quick
-		}
 		g.size *= g.radix[i]
+	}
+	for idx := 0; idx < g.size; idx++ {
+		if tier == "quick" {
+			w := 0
+			for _, v := range g.digits(idx) {
+				if v != 0 {
+					w++
+				}
+			}
+			if w > quickWeight {
+				continue
+			}
+		}
+		g.members = append(g.members, int32(idx))
 	}
 	return g
 }
@@ -336,26 +357,26 @@ func smallPayload(serial int64) []byte {
 	return []byte(`{"jsonrpc":"2.0","id":1,"result":"C36-` + strconv.FormatInt(serial, 10) + `"}`)
 }
 
-func parallel(n, workers int, deadline time.Time, f func(i int)) (completed bool) {
+func parallel(n, workers int, deadline time.Time, f func(w, i int)) (completed bool) {
 	var next int64
 	var wg sync.WaitGroup
 	var timedOut atomic.Bool
 	for w := 0; w < workers; w++ {
 		wg.Add(1)
-		go func() {
+		go func(w int) {
 			defer wg.Done()
 			for {
 				i := int(atomic.AddInt64(&next, 1) - 1)
 				if i >= n {
 					return
 				}
-				if i%64 == 0 && time.Now().After(deadline) {
+				if time.Now().After(deadline) {
 					timedOut.Store(true)
 					return
 				}
-				f(i)
+				f(w, i)
 			}
-		}()
+		}(w)
 	}
 	wg.Wait()
 	return !timedOut.Load()
@@ -364,7 +385,9 @@ func parallel(n, workers int, deadline time.Time, f func(i int)) (completed bool
 func phase1(run *ev.Run, h *harness, tier string, workers int, deadline time.Time) bool {
 	g := newGrid(tier)
 	hashes := make([][]byte, g.size)
-	done := parallel(g.size, workers, deadline, func(i int) {
+	scratch := make([][]byte, workers)
+	done := parallel(len(g.members), workers, deadline, func(w, mi int) {
+		i := int(g.members[mi])
 		d := g.digits(i)
 		req, chain := buildReq(d)
 		twin, _ := buildReq(d)
@@ -374,7 +397,7 @@ func phase1(run *ev.Run, h *harness, tier string, workers int, deadline time.Tim
 		}
 		hashes[i] = hash
 		// half of the entries finalized, half non-finalized without hash (both may be served to anyone asking for the key)
-		if err := h.set(hash, chain, req.RequestBlock, req.SeenBlock, i%2 == 0, nil, int64(i), smallPayload(int64(i))); err != nil {
+		if err := h.set(hash, chain, req.RequestBlock, req.SeenBlock, i%2 == 0, nil, int64(i), smallPayload(int64(i)), &scratch[w]); err != nil {
 			run.Violate(ev.Violation{Key: "harness-set-error", What: "SetRelay failed: " + err.Error(), Replay: describeDigits(d)})
 		}
 	})
@@ -384,7 +407,8 @@ func phase1(run *ev.Run, h *harness, tier string, workers int, deadline time.Tim
 	classSeen := make([]uint32, g.size) // class index -> verified hit seen
 	var hits, misses, crossVariant, distinctClasses, distinctKeys int64
 	keys := sync.Map{}
-	done = parallel(g.size, workers, deadline, func(j int) {
+	done = parallel(len(g.members), workers, deadline, func(w, mj int) {
+		j := int(g.members[mj])
 		if hashes[j] == nil {
 			return
 		}
@@ -404,7 +428,7 @@ func phase1(run *ev.Run, h *harness, tier string, workers int, deadline time.Tim
 		}
 		atomic.AddInt64(&hits, 1)
 		i := replySerial(rep)
-		if i < 0 || i >= int64(g.size) {
+		if i < 0 || i >= int64(g.size) || hashes[i] == nil {
 			run.Violate(ev.Violation{Key: "p1-reply-unidentifiable", What: fmt.Sprintf("hit with a reply that was never stored: %+v", rep.Reply), Replay: describeDigits(d)})
 			return
 		}
@@ -421,7 +445,7 @@ func phase1(run *ev.Run, h *harness, tier string, workers int, deadline time.Tim
 				Replay: map[string]interface{}{"stored_for": describeDigits(di), "get": describeDigits(d), "differs_in": diff}})
 			return
 		}
-		if f := sameAsStored(rep, i, smallPayload(i)); f != "" {
+		if f := sameAsStored(rep, i, func(got []byte) bool { return bytes.Equal(got, smallPayload(i)) }); f != "" {
 			run.Violate(ev.Violation{Key: "p1-reply-differs:" + f, What: fmt.Sprintf("reply field %s differs from what was stored (got %q)", f, rep.Reply.Data),
 				Replay: map[string]interface{}{"stored_for": describeDigits(di), "get": describeDigits(d)}})
 			return
@@ -433,8 +457,8 @@ func phase1(run *ev.Run, h *harness, tier string, workers int, deadline time.Tim
 			atomic.AddInt64(&distinctClasses, 1)
 		}
 	})
-	run.Set("p1_grid_requests", int64(g.size))
-	run.Set("p1_ordered_pairs_decided", int64(g.size)*int64(g.size))
+	run.Set("p1_grid_requests", int64(len(g.members)))
+	run.Set("p1_ordered_pairs_decided", int64(len(g.members))*int64(len(g.members)))
 	run.Set("p1_hits_verified", hits)
 	run.Set("p1_misses", misses)
 	run.Set("p1_hits_served_from_an_ignorable_variant", crossVariant)
@@ -444,9 +468,13 @@ func phase1(run *ev.Run, h *harness, tier string, workers int, deadline time.Tim
 	for i := range dims {
 		radix = append(radix, fmt.Sprintf("%s:%d", dims[i].name, g.radix[i]))
 	}
-	run.Set("p1_grid", strings.Join(radix, " "))
+	p1grid := "full product of " + strings.Join(radix, " ")
+	if tier == "quick" {
+		p1grid = fmt.Sprintf("all requests with at most %d fields different from the base request, out of the product of ", quickWeight) + strings.Join(radix, " ")
+	}
+	run.Set("p1_grid", p1grid)
 	if done {
-		run.Sample(map[string]interface{}{"phase": 1, "request": describeDigits(g.digits(g.size / 3)), "note": "stored with its own reply, then looked up; a hit must carry a reply stored for an equivalent request"})
+		run.Sample(map[string]interface{}{"phase": 1, "request": describeDigits(g.digits(int(g.members[len(g.members)/3]))), "note": "stored with its own reply, then looked up; a hit must carry a reply stored for an equivalent request"})
 		if hits == 0 || crossVariant == 0 {
 			run.Violate(ev.Violation{Key: "harness-vacuous-p1", What: fmt.Sprintf("phase 1 observed hits=%d crossVariant=%d: the oracle was never exercised", hits, crossVariant)})
 		}
@@ -476,23 +504,51 @@ type op struct {
 var blockHashes = [][]byte{nil, []byte("hash-one-0123456789abcdef"), []byte("hash-two-0123456789abcdef")}
 var hashNames = []string{"nohash", "h1", "h2"}
 
-func alphabet(tier string) []op {
+func allSizes() map[string]sizeClass {
 	T := common.CompressionThreshold
-	sizes := []sizeClass{{"10", 10, true}, {"T-1", T - 1, true}, {"T", T, true}, {"T+1", T + 1, true}}
+	m := map[string]sizeClass{}
+	for _, c := range []sizeClass{{"10", 10, true}, {"T-1", T - 1, true}, {"T", T, true}, {"T+1", T + 1, true}, {"T+1rnd", T + 1, false}, {"3T", 3 * T, true}} {
+		m[c.name] = c
+	}
+	return m
+}
+
+// part is one exhaustive family of histories: all sequences of length <= depth ending in a get over its alphabet.
+type part struct {
+	name   string
+	depth  int
+	sizes  []string
+	withH2 bool // also non-finalized sets carrying the second block hash
+}
+
+func parts(tier string) []part {
+	if tier == "thorough" {
+		return []part{
+			{"small-deep", 5, []string{"10"}, true},
+			{"sizes", 3, []string{"10", "T-1", "T", "T+1", "T+1rnd", "3T"}, true},
+			{"big-deep", 4, []string{"10", "T+1"}, true},
+		}
+	}
+	return []part{
+		{"small-deep", 3, []string{"10"}, true},
+		{"sizes", 2, []string{"T-1", "T", "T+1", "T+1rnd"}, false},
+	}
+}
+
+func alphabet(p part) []op {
 	type kind struct {
 		name string
 		fin  bool
 		hash int
 	}
 	kinds := []kind{{"F", true, 1}, {"N+h1", false, 1}, {"N", false, 0}}
-	if tier == "thorough" {
-		sizes = append(sizes, sizeClass{"T+1rnd", T + 1, false}, sizeClass{"3T", 3 * T, true})
+	if p.withH2 {
 		kinds = append(kinds, kind{"N+h2", false, 2})
 	}
 	var ops []op
 	for _, k := range kinds {
-		for _, s := range sizes {
-			ops = append(ops, op{name: "set(" + k.name + "," + s.name + ")", isSet: true, finalized: k.fin, hashIx: k.hash, size: s})
+		for _, sn := range p.sizes {
+			ops = append(ops, op{name: "set(" + k.name + "," + sn + ")", isSet: true, finalized: k.fin, hashIx: k.hash, size: allSizes()[sn]})
 		}
 	}
 	for _, fin := range []bool{true, false} {
@@ -525,15 +581,35 @@ func initFillers(max int) {
 	}
 }
 
-func bigPayload(serial int64, s sizeClass) []byte {
-	b := make([]byte, s.n)
+// bigPayload materialises payload (serial, size class) into buf: a 14-digit serial header followed by filler.
+func bigPayload(serial int64, s sizeClass, buf *[]byte) []byte {
+	if cap(*buf) < s.n {
+		*buf = make([]byte, s.n)
+	}
+	b := (*buf)[:s.n]
 	if s.compressible {
 		copy(b, fillerC)
 	} else {
 		copy(b, fillerR)
 	}
-	copy(b, fmt.Sprintf("%09d|", serial))
+	copy(b, fmt.Sprintf("%014d|", serial))
 	return b
+}
+
+// bigPayloadEquals compares got with bigPayload(serial, s) byte by byte without materialising the latter.
+func bigPayloadEquals(got []byte, serial int64, s sizeClass) bool {
+	if len(got) != s.n {
+		return false
+	}
+	filler := fillerR
+	if s.compressible {
+		filler = fillerC
+	}
+	hdr := fmt.Sprintf("%014d|", serial)
+	if len(hdr) > s.n {
+		hdr = hdr[:s.n]
+	}
+	return string(got[:len(hdr)]) == hdr && bytes.Equal(got[len(hdr):], filler[len(hdr):s.n])
 }
 
 var serialCounter int64 = 1 << 40 // disjoint from phase 1 serials
@@ -556,7 +632,9 @@ type p2stats struct {
 	hitsBySize                                                        sync.Map
 }
 
-func runSequence(run *ev.Run, h *harness, ops []op, seq []int, ns int, st *p2stats) {
+type workerBufs struct{ payload, wire []byte }
+
+func runSequence(run *ev.Run, h *harness, ops []op, seq []int, ns int, st *p2stats, wb *workerBufs) {
 	names := func() []string {
 		var n []string
 		for _, ix := range seq {
@@ -577,9 +655,9 @@ func runSequence(run *ev.Run, h *harness, ops []op, seq []int, ns int, st *p2sta
 		lastHash = hash
 		if o.isSet {
 			serial := atomic.AddInt64(&serialCounter, 1)
-			data := bigPayload(serial, o.size)
-			entries = append(entries, stored{serial: serial, finalized: o.finalized, hash: blockHashes[o.hashIx], data: data})
-			if err := h.set(hash, "ETH1", req.RequestBlock, req.SeenBlock, o.finalized, blockHashes[o.hashIx], serial, data); err != nil {
+			data := bigPayload(serial, o.size, &wb.payload)
+			entries = append(entries, stored{serial: serial, finalized: o.finalized, hash: blockHashes[o.hashIx], size: o.size})
+			if err := h.set(hash, "ETH1", req.RequestBlock, req.SeenBlock, o.finalized, blockHashes[o.hashIx], serial, data, &wb.wire); err != nil {
 				run.Violate(ev.Violation{Key: "harness-set-error", What: "SetRelay failed: " + err.Error(), Replay: names()})
 				return
 			}
@@ -593,7 +671,9 @@ func runSequence(run *ev.Run, h *harness, ops []op, seq []int, ns int, st *p2sta
 		}
 		if rep == nil || rep.Reply == nil {
 			if len(entries) > 0 {
-				atomic.AddInt64(&st.refusals, 1)
+				if atomic.AddInt64(&st.refusals, 1) == 1 {
+					run.Sample(map[string]interface{}{"phase": 2, "history": names(), "observed": fmt.Sprintf("op %d missed although the key has entries", pos)})
+				}
 				hitOrRefusal = true
 			} else {
 				atomic.AddInt64(&st.emptyMiss, 1)
@@ -615,18 +695,10 @@ func runSequence(run *ev.Run, h *harness, ops []op, seq []int, ns int, st *p2sta
 				Replay: names()})
 			continue
 		}
-		sizeName := "?"
-		for _, pix := range seq[:pos] {
-			if ops[pix].isSet {
-				// the entry's size class: find by length & compressibility of the op that created it
-				if len(e.data) == ops[pix].size.n {
-					sizeName = ops[pix].size.name
-				}
-			}
-		}
-		if f := sameAsStored(rep, serial, e.data); f != "" {
-			run.Violate(ev.Violation{Key: "p2-reply-differs:" + f + ":len" + sizeClassOfLen(len(e.data)),
-				What:   fmt.Sprintf("op %d %s: reply field %s differs from the stored reply (stored %d bytes, got %d bytes)", pos, o.name, f, len(e.data), len(rep.Reply.Data)),
+		sizeName := e.size.name
+		if f := sameAsStored(rep, serial, func(got []byte) bool { return bigPayloadEquals(got, serial, e.size) }); f != "" {
+			run.Violate(ev.Violation{Key: "p2-reply-differs:" + f + ":len" + sizeClassOfLen(e.size.n),
+				What:   fmt.Sprintf("op %d %s: reply field %s differs from the stored reply (stored %d bytes, got %d bytes)", pos, o.name, f, e.size.n, len(rep.Reply.Data)),
 				Replay: names()})
 			continue
 		}
@@ -638,8 +710,10 @@ func runSequence(run *ev.Run, h *harness, ops []op, seq []int, ns int, st *p2sta
 		}
 		c, _ := st.hitsBySize.LoadOrStore(sizeName, new(int64))
 		atomic.AddInt64(c.(*int64), 1)
-		if len(e.data) > common.CompressionThreshold {
-			atomic.AddInt64(&st.compressedHits, 1)
+		if e.size.n > common.CompressionThreshold {
+			if atomic.AddInt64(&st.compressedHits, 1) == 1 {
+				run.Sample(map[string]interface{}{"phase": 2, "history": names(), "observed": fmt.Sprintf("op %d hit: %d reply bytes identical to the stored payload (stored gzip-compressed when compressible)", pos, len(rep.Reply.Data))})
+			}
 		}
 	}
 	atomic.AddInt64(&st.seqs, 1)
@@ -671,39 +745,56 @@ func hashNameOf(hh []byte) string {
 	return "nohash"
 }
 
-func phase2(run *ev.Run, h *harness, tier string, depth, workers int, deadline time.Time) bool {
-	ops := alphabet(tier)
+func phase2(run *ev.Run, h *harness, tier string, workers int, deadline time.Time) bool {
 	initFillers(3*common.CompressionThreshold + 16)
-	var getIx []int
-	for i, o := range ops {
-		if !o.isSet {
-			getIx = append(getIx, i)
-		}
-	}
-	// all sequences of length 1..depth whose last op is a get (a trailing set is never observed)
-	var seqs [][]int
-	var rec func(prefix []int, remaining int)
-	rec = func(prefix []int, remaining int) {
-		for _, gi := range getIx {
-			s := append(append([]int{}, prefix...), gi)
-			seqs = append(seqs, s)
-		}
-		if remaining <= 1 {
-			return
-		}
-		for i := range ops {
-			rec(append(append([]int{}, prefix...), i), remaining-1)
-		}
-	}
-	rec(nil, depth)
 	st := &p2stats{}
-	done := parallel(len(seqs), workers, deadline, func(i int) {
-		runSequence(run, h, ops, seqs[i], i, st)
-	})
-	run.Set("p2_alphabet", int64(len(ops)))
-	run.Set("p2_depth", int64(depth))
+	bufs := make([]workerBufs, workers)
+	done := true
+	nsBase, enumerated := 0, 0
+	var descr []string
+	usedSizes := map[string]bool{}
+	for _, p := range parts(tier) {
+		ops := alphabet(p)
+		var getIx []int
+		for i, o := range ops {
+			if !o.isSet {
+				getIx = append(getIx, i)
+			} else {
+				usedSizes[o.size.name] = true
+			}
+		}
+		// all sequences of length 1..depth whose last op is a get (a trailing set is never observed)
+		var seqs [][]int
+		var rec func(prefix []int, remaining int)
+		rec = func(prefix []int, remaining int) {
+			for _, gi := range getIx {
+				seqs = append(seqs, append(append([]int{}, prefix...), gi))
+			}
+			if remaining <= 1 {
+				return
+			}
+			for i := range ops {
+				rec(append(append([]int{}, prefix...), i), remaining-1)
+			}
+		}
+		rec(nil, p.depth)
+		base := nsBase
+		ok := parallel(len(seqs), workers, deadline, func(w, i int) {
+			runSequence(run, h, ops, seqs[i], base+i, st, &bufs[w])
+		})
+		done = done && ok
+		nsBase += len(seqs)
+		enumerated += len(seqs)
+		var opn []string
+		for _, o := range ops {
+			opn = append(opn, o.name)
+		}
+		descr = append(descr, fmt.Sprintf("%s: all %d histories of length <= %d ending in a get over %d operations", p.name, len(seqs), p.depth, len(ops)))
+		run.Sample(map[string]interface{}{"phase": 2, "part": p.name, "alphabet": opn})
+	}
+	run.Set("p2_parts", descr)
 	run.Set("p2_sequences", st.seqs)
-	run.Set("p2_sequences_enumerated", int64(len(seqs)))
+	run.Set("p2_sequences_enumerated", int64(enumerated))
 	run.Set("p2_gets", st.gets)
 	run.Set("p2_hits_verified_bytewise", st.hits)
 	run.Set("p2_hits_above_compression_threshold", st.compressedHits)
@@ -714,19 +805,9 @@ func phase2(run *ev.Run, h *harness, tier string, depth, workers int, deadline t
 	st.hitsBySize.Range(func(k, v interface{}) bool { bySize[k.(string)] = atomic.LoadInt64(v.(*int64)); return true })
 	run.Set("p2_hits_by_payload_size", bySize)
 	if done {
-		var names []string
-		for _, ix := range seqs[len(seqs)*2/3] {
-			names = append(names, ops[ix].name)
-		}
-		run.Sample(map[string]interface{}{"phase": 2, "history": names})
-		var opn []string
-		for _, o := range ops {
-			opn = append(opn, o.name)
-		}
-		run.Sample(map[string]interface{}{"phase": 2, "alphabet": opn})
-		for _, o := range ops {
-			if o.isSet && bySize[o.size.name] == 0 {
-				run.Violate(ev.Violation{Key: "harness-vacuous-p2", What: "no verified hit for payload size class " + o.size.name})
+		for sn := range usedSizes {
+			if bySize[sn] == 0 {
+				run.Violate(ev.Violation{Key: "harness-vacuous-p2", What: "no verified hit for payload size class " + sn})
 			}
 		}
 		if st.refusals == 0 {
@@ -746,25 +827,31 @@ func Run(run *ev.Run) {
 		workers = 16
 	}
 	budget := 50 * time.Second
-	depth := 3
 	if tier == "thorough" {
 		budget = 14 * time.Minute
-		depth = 4
 	}
-	deadline := time.Now().Add(budget)
-	h := newHarness()
-	defer h.cs.VerifClose()
+	t0 := time.Now()
+	deadline := t0.Add(budget)
+	h := newHarness() // never closed: ristretto's Close() clears ~1GB of sketches; the process ends right after the check
 
-	ok1 := phase1(run, h, tier, workers, deadline)
-	ok2 := phase2(run, h, tier, depth, workers, deadline)
+	ok1, ok2 := true, true
+	if os.Getenv("C36_DEV_SKIP") != "1" {
+		ok1 = phase1(run, h, tier, workers, deadline)
+	}
+	t1 := time.Since(t0)
+	if os.Getenv("C36_DEV_SKIP") != "2" {
+		ok2 = phase2(run, h, tier, workers, deadline)
+	}
+	run.Set("wall_phase1_s", t1.Seconds())
+	run.Set("wall_phase2_s", (time.Since(t0) - t1).Seconds())
 
 	evals := run.Get("p1_grid_requests") + run.Get("p2_sequences")
 	run.Set("evaluations", evals)
 	run.Set("distinct_nontrivial", run.Get("p1_distinct_request_classes_hit")+run.Get("p2_sequences_nontrivial"))
-	run.Set("rule", "phase 1: every request of the cartesian grid p1_grid (x chain id) is stored with its own reply and then looked up through the real SetRelay/GetRelay with keys from the real HashCacheRequest; a request class (request modulo id/salt/seen block/request,task,tx id) is non-trivial when a lookup of it hit and the hit was checked against the stored reply and against the class of the request it was stored for. phase 2: every Set/Get sequence of length <= p2_depth ending in a Get over the listed alphabet, each in its own key namespace; a sequence is non-trivial when at least one Get hit (reply compared byte-wise with the stored reply, block-hash rule checked) or missed while entries for the key existed.")
+	run.Set("rule", "phase 1: every request of the cartesian grid p1_grid (x chain id) is stored with its own reply and then looked up through the real SetRelay/GetRelay with keys from the real HashCacheRequest; a request class (request modulo id/salt/seen block/request,task,tx id) is non-trivial when a lookup of it hit and the hit was checked against the stored reply and against the class of the request it was stored for. phase 2: every Set/Get sequence of the families in p2_parts (alphabets in the samples), each in its own key namespace; a sequence is non-trivial when at least one Get hit (reply compared byte-wise with the stored reply, block-hash rule checked) or missed while entries for the key existed.")
 	run.Set("exhaustive", ok1 && ok2)
-	run.Set("bound", fmt.Sprintf("phase 1: full grid of %d requests (all ordered pairs); phase 2: all %d histories of length <= %d over %d operations; requested blocks >= 0 only",
-		run.Get("p1_grid_requests"), run.Get("p2_sequences_enumerated"), depth, run.Get("p2_alphabet")))
+	run.Set("bound", fmt.Sprintf("phase 1: grid of %d requests (all ordered pairs); phase 2: %d histories (see p2_parts); requested blocks >= 0 only",
+		run.Get("p1_grid_requests"), run.Get("p2_sequences_enumerated")))
 	run.Assume("symbolic requested blocks (latest/pending/safe/finalized/earliest < 0) are out of scope: their resolution uses a latest-block entry with a hard-coded 500ms wall-clock expiry")
 	run.Assume("all TTLs are 24h and total stored cost stays far below MaxCost (2GiB), so no entry expires or is evicted during the run; ristretto Wait() after every SetRelay")
 	run.Assume("handlers are called in-process after a protobuf marshal/unmarshal round trip of the request message (gRPC transport itself not exercised)")
